@@ -40,12 +40,32 @@ def ctorAttrs : MsgClass → List Attr
   | .error => [.errorName, .replySerial, .destination, .signature, .sender]
   | .signal => [.path, .member, .interface, .destination, .signature]
 
+/-- The type the specification gives to the header field of each attribute (PATH is an OBJECT_PATH, SIGNATURE a
+SIGNATURE, REPLY_SERIAL and UNIX_FDS are UINT32, the rest STRING). -/
+def attrType : Attr → Basic
+  | .path => .o
+  | .signature => .g
+  | .replySerial => .u
+  | .unixFds => .u
+  | _ => .s
+
+/-- The attributes whose header fields the specification requires for each class's message type. -/
+def requiredAttrs : MsgClass → List Attr
+  | .methodCall => [.path, .member]
+  | .methodReturn => [.replySerial]
+  | .error => [.errorName, .replySerial]
+  | .signal => [.path, .interface, .member]
+
 /-- The facts about the tables that the theorems use. -/
 structure Tables.OK (T : Tables) : Prop where
   format : T.headerFormat = headerFormatStr
   endian : T.endian = 108
   version : T.protocolVersion = 1
   maxLen : T.maxMsgLen = Spec.maxMessage
+  /-- no class overrides the limit -/
+  maxLenOf : ∀ cls, T.maxMsgLenOf cls = Spec.maxMessage
+  /-- `pad['header']` pads to the 8-byte boundary -/
+  headerAlign : T.headerAlign = 8
   serialInit : 1 ≤ T.nextSerialInit
   align : AlignOK T.align
   /-- every class's type code is a known message type of the specification, and `_mtype` maps it back -/
@@ -58,6 +78,11 @@ structure Tables.OK (T : Tables) : Prop where
   nodupCodes : ∀ cls, ((T.entries cls true).map (·.2.1)).Nodup
   /-- `unix_fds` is only ever added by `_marshal` itself -/
   fdsEntry : T.unixFdsEntry.1 = .unixFds ∧ ∀ cls, ∀ ent ∈ T.headerAttrs cls, ent.1 ≠ .unixFds
+  /-- `_hcode` names each code of the specification's header-field table by the attribute of that field's type -/
+  hcodeTypes : ∀ p ∈ T.hcode, Spec.fieldType p.1 = some (attrType p.2)
+  /-- the codes the specification requires for a class's message type are entries of its table, for required attributes -/
+  required : ∀ cls, ∀ code ∈ Spec.requiredCodes (T.messageType cls),
+    ∃ ent ∈ T.headerAttrs cls, ent.2.1 = code ∧ ent.1 ∈ requiredAttrs cls
   /-- `_hcode` knows the codes 1..9 only -/
   hcodeRange : ∀ p ∈ T.hcode, 1 ≤ p.1 ∧ p.1 ≤ 9
   /-- every attribute a constructor assigns is in its class's `_headerAttrs` (else it would be set but never sent) -/
@@ -130,6 +155,19 @@ def Call.pre {β : Type} : Call β → Pre β
 def Call.oob {β : Type} : Call β → Option (List PyVal)
   | .methodCall a => a.oobFDs
   | _ => none
+
+/-- The `body` argument. -/
+def Call.body {β : Type} : Call β → Option β
+  | .methodCall a => a.body
+  | .methodReturn a => a.body
+  | .error a => a.body
+  | .signal a => a.body
+
+/-- The `path` argument of a method call or signal is given (not None): the documented argument type. -/
+def Call.pathGiven {β : Type} : Call β → Prop
+  | .methodCall a => a.path ≠ none
+  | .signal a => a.path ≠ none
+  | _ => True
 
 /-- The `signature` argument. -/
 def Call.signature {β : Type} : Call β → Option (List Char)
